@@ -81,7 +81,8 @@ class Harness:
         self.Vpre = Vold
         self.Vpost = NS({"p": self.P, "a": NS(post), "null": NS(nulls), "v": self.P, "old": Vold, "ret": self.ret, "g": NS({}), "ex": self.ex})
         self.requires = labelled(contract.requires(Vold), "pre")
-        self.ensures = [(l, e) for l, e in labelled(contract.ensures(self.Vpost), "post") if not l.startswith("def")]
+        ens_fn = contract.replay_ensures or contract.ensures
+        self.ensures = [(l, e) for l, e in labelled(ens_fn(self.Vpost), "post") if not l.startswith("def")]
 
     def run(self, inputs):
         """inputs: dict param name -> number | numpy array | None (NULL).  Returns (violated clause labels, details)."""
@@ -96,6 +97,8 @@ class Harness:
                 env[name] = float(v) if t == "real" else int(v)
                 args.append(ct(v) if ct is not ctypes.c_char else ctypes.c_char(bytes([int(v)])))
             else:
+                if v is None and name not in inputs and name not in self.contract.nullable:
+                    raise ValueError("generator gives no value for %s" % name)
                 if v is None:
                     env[name + "_is_null"] = True
                     args.append(None)
@@ -107,6 +110,9 @@ class Harness:
                 keep.append((name, work))
                 args.append(work.ctypes.data_as(ctypes.c_void_p))
         self.cfunc.argtypes = None
+        for k_, v_ in inputs.items():
+            if k_ not in env and not any(k_ == pn for pn, _, _, _ in self.ptypes):
+                env[k_] = v_          # ghost constants of the contract (leading dimensions, PI, ...)
         ev0 = Evaluator(env, qrange=self.qrange(env))
         for lab, r in self.requires:
             try:
